@@ -291,10 +291,9 @@ func (p *sparser) primary() *SExpr {
 			return e
 		}
 		if t.text == "[" {
-			// slice type conversion []byte(x)
+			// slice type: []byte(x) as a conversion, or []*pkg.T as a type argument
 			p.expect("]")
-			id := p.next()
-			return &SExpr{Kind: KIdent, Name: "[]" + id.text}
+			return &SExpr{Kind: KIdent, Name: "[]" + p.typeName()}
 		}
 	}
 	p.fail("unexpected %q", t.text)
